@@ -343,7 +343,9 @@ def ntKids : NT → List NT
 /-- `xml_bindings` of the element at `path` -/
 def bindAttrs (root : Str) (tops : List Str) (path : List Str) (q : Binds.Q) : Option (List (Str × Str)) :=
   match Binds.xmlBind root tops { path, q } with
-  | some (some b) => some b.attrs
+  | some (some b) =>
+    -- `setAttribute` evicts an attribute of the same local name: `x:nodeset` would remove `nodeset` (outside the fragment)
+    if b.attrs.all (fun kv => Asm.attrLocal kv.1 != l!"nodeset") then some b.attrs else none
   | _ => none
 
 def bindNode (root : Str) (tops : List Str) (path : List Str) (q : Binds.Q) : Node :=
@@ -414,6 +416,17 @@ def bodyNodes (pre : List Str) : DItem → List Node
 def bodyNodesL (pre : List Str) : List DItem → List Node
   | [] => []
   | k :: ks => bodyNodes pre k ++ bodyNodesL pre ks
+end
+
+mutual
+/-- no control attribute has the local name `ref` / `nodeset` (`setAttribute` would evict the control's reference) -/
+def ctlOk : DItem → Bool
+  | .q _ p => p.attrs.all fun kv => Asm.attrLocal kv.1 != l!"ref" && Asm.attrLocal kv.1 != l!"nodeset"
+  | .sec _ _ _ p ks =>
+    (p.attrs.all fun kv => Asm.attrLocal kv.1 != l!"ref" && Asm.attrLocal kv.1 != l!"nodeset") && ctlOkL ks
+def ctlOkL : List DItem → Bool
+  | [] => true
+  | k :: ks => ctlOk k && ctlOkL ks
 end
 
 /-! ## 8. choices and settings -/
@@ -508,6 +521,7 @@ def convertDoc (wb : Workbook) : Except Err Node :=
     .error (.unsupported "meta block") else
   let tops := topNames ditems
   if !bindsOkL root tops [root] dall then .error (.unsupported "reference or bind value outside the fragment") else
+  if !ctlOkL ditems then .error (.unsupported "control attribute with the local name ref / nodeset") else
   let rootKids := instNodes (defaultsOfL [root] ditems) [root] (ntKids o.inst)
   let insts := (Choices.staticInsts [] lists).map Choices.instNode
   let binds := bindNodesL root tops [root] dall
